@@ -15,8 +15,9 @@ from pv.runner import Res
 
 ID = "C10"
 RULE = ("trajectories produced from generated (domain, problem, plan >= 1 step) triples (fluents with repeated "
-        "arguments, 0-ary atoms, negative and fractional values, empty states), parsed back with and without the "
-        "problem's object table; joint-action trajectories with nop entries through MultiAgentTrajectoryExporter.  "
+        "arguments, 0-ary atoms, negative and fractional values, a by-standing fluent of 1-15 significant digits and magnitude 1e-14..1e21, empty states), parsed back with and without the "
+        "problem's object table; joint-action trajectories (1-2 steps, 1-4 agents, nop entries, parameterless members) "
+        "through MultiAgentTrajectoryExporter, parsed back with executing_agents (scenario shared with C16).  "
         "Non-trivial = the trajectory has >= 2 steps and some state holds a fluent with a repeated argument, a 0-ary "
         "atom, a negative or fractional value, or is empty; or it is a joint trajectory.  Distinct by (domain, init, plan).")
 ASSUMPTIONS = ["plan steps whose reference outcome is undefined make the case excluded when the exporter raises",
@@ -76,6 +77,8 @@ def check_case(case):
     res = Res()
     if case.get("kind") == "file":
         return check_file(case, res)
+    if case.get("kind") == "joint":
+        return check_joint(case, res)
     world = PC.validate_plan_case(case)
     dom, objects, plan = case["dom"], case["objects"], case["plan"]
     if not plan:
@@ -181,6 +184,27 @@ def check_file(case, res):
     return res
 
 
+def check_joint(case, res):
+    """A joint-action trajectory (one or two steps, nop entries, parameterless members): exported by
+    MultiAgentTrajectoryExporter and parsed back with executing_agents.  The scenario and its judgement are C16's;
+    only what concerns the text and its reading back is reported here."""
+    from pv.props import c16
+    r = c16.check_case(case["joint"])
+    res.skipped, res.key, res.evals = r.skipped, "joint:" + (r.key or ""), r.evals
+    res.classes = ["joint-trajectory"]
+    mine = [(b, d) for b, d in r.disc if b.startswith("C16/parser/") or b == "C16/exporter/text"]
+    for b, d in mine:
+        res.bad("C10/joint/" + b[len("C16/"):], d)
+    # the round trip was reached only if nothing earlier stopped C16's check
+    res.nontrivial = not r.skipped and (bool(mine) or not r.disc) and r.classes[:1] and r.classes[0].startswith("ok")
+    return res
+
+
+def gen_joint(ch, tier):
+    from pv.props import c16
+    return {"kind": "joint", "joint": c16.gen(ch, tier)}
+
+
 def chunk_cases(tier, chunk):
     for i, (d, p, t) in enumerate(SHIPPED):
         if i % chunk[1] == chunk[0]:
@@ -190,12 +214,18 @@ def chunk_cases(tier, chunk):
 def gen(ch, tier):
     case = PC.gen_plan_case(ch, tier, max_len=6 if tier == "quick" else 15, p_applicable=0.85)
     case["allow"] = ch.flag(0.2)
+    if ch.flag(0.5) and not any(f[0] == "fz" for f in case["dom"]["functions"]):
+        # a fluent no action reads or writes, holding a value of 1-15 significant digits and any magnitude
+        # (1e-14 .. 1e21): it travels through every state text of the trajectory
+        from pv.props.c14 import gen_value
+        case["dom"]["functions"].append(["fz", []])
+        case["init"]["fluents"] = sorted(case["init"]["fluents"] + [[["fz"], str(gen_value(ch))]])
     return case
 
 
 def plan(tier):
     if tier == "quick":
-        return {"exhaustive": [(i, 4) for i in range(4)], "streams": {"main": 3000}, "shards": 16, "exhaustive_is_complete": True,
+        return {"exhaustive": [(i, 4) for i in range(4)], "streams": {"main": 3000, "joint": 800}, "shards": 16, "exhaustive_is_complete": True,
                 "exhaustive_note": "the single-agent trajectory files shipped under tests/ read by the library and by the independent reader"}
-    return {"exhaustive": [(i, 4) for i in range(4)], "streams": {"main": 40000}, "shards": 16, "exhaustive_is_complete": True,
+    return {"exhaustive": [(i, 4) for i in range(4)], "streams": {"main": 40000, "joint": 12000}, "shards": 16, "exhaustive_is_complete": True,
             "exhaustive_note": "the shipped single-agent trajectory files"}
